@@ -218,7 +218,8 @@ def step (cfg : Cfg) (s : St) : Op → St × Out
         ({ s with kept := e' :: lruDel s.kept id }, .ans (ansOf s e'))
       | none => (s, .ans .notFound)
   | .checkTrace id fp =>
-    if s.cur.ids.contains id || fp then (s, .ans .dropped)
+    -- the recent-drop set is consulted but, unlike `CheckSpan`, not refreshed
+    if recentHas s id || s.cur.ids.contains id || fp then (s, .ans .dropped)
     else match lruFind s.kept id with
       | some e => ({ s with kept := e :: lruDel s.kept id }, .ans (ansOf s e))
       | none => (s, .ans .notFound)
